@@ -159,6 +159,43 @@ example : (dagAttempt exG [1] false).conns 0 = [] ∧ (dagAttempt exG [1] true).
 example : (reorder exG 1 [5, 0]).2 = true ∧ (reorder exG 1 [5, 0]).1.conns 1 = [5, 0] ∧ (reorder exG 1 [5, 5]).2 = false := by
   decide
 
+/-- `_restore_connections_from_strings` since f343608: the stored pair is inserted into both lists directly (if the
+input does not list the output yet), without `connect` and therefore without a hint test. Mutuality, duplicate-freedom
+and conjugate kinds survive — the last because the model (like the code's panel getters) only pairs an input panel with
+the output panel of the same flavour and refuses (`false`) anything else. What is ASSUMED and no longer checked
+anywhere: hint compatibility of what was stored. -/
+theorem C12_restore_insert (g : G) (a b : Nat) (h : Inv g) :
+    Inv (restoreInsert g a b).1 ∧ (b ∈ g.conns a → restoreInsert g a b = (g, true)) :=
+  ⟨restoreInsert_inv g a b h, fun hb => by simp [restoreInsert, hb]⟩
+
+/-- `Node.load` in place since f195940: an old channel hands its list to the loaded channel of the same label, its
+partners list the loaded channel instead, the old channel lets go — a seating with one stand-in: the invariant
+survives whenever the loaded channel is unconnected, distinct and of the same kind (checked by the model) -/
+theorem C12_load_in_place (g : G) (o n : Nat) (h : Inv g) :
+    Inv (moveChan g o n).1 ∧
+    ((moveChan g o n).2 = true → (moveChan g o n).1.conns o = [] ∧
+      (moveChan g o n).1.conns n = ((g.conns o).filter fun z => !([n] : List Nat).contains z).map (subst [(o, n)])) := by
+  refine ⟨moveChan_inv g o n h, ?_⟩
+  intro hok
+  unfold moveChan at hok ⊢
+  split
+  · rename_i hs
+    have hsp := seatable_spec g _ _ _ hs
+    have hon : o ≠ n := fun e => hsp.disj o (by simp) (by simp [e])
+    have h1 := seat_conns g [(o, n)] [o] [n] h hsp o
+    have h2 := seat_conns g [(o, n)] [o] [n] h hsp n
+    have hb : (n == o) = false := by simpa using (Ne.symm hon)
+    simp [src, List.find?, hb] at h1
+    simp [src, List.find?] at h2
+    exact ⟨h1, by simpa [tr] using h2⟩
+  · rename_i hs
+    simp [hs] at hok
+
+example : (restoreInsert exG 0 2).2 = true ∧ (restoreInsert exG 0 2).1.conns 0 = [2, 1] ∧ (restoreInsert exG 0 3).2 = false := by
+  decide
+example : (moveChan exG 1 2).2 = true ∧ (moveChan exG 1 2).1.conns 2 = [0, 5] ∧ (moveChan exG 1 2).1.conns 0 = [2] ∧
+    (moveChan exG 1 2).1.conns 1 = [] := by decide
+
 /-! ## refusals per side, in the tree's order of half-removals -/
 
 /-- where no channel refuses (the tree as it is), the half-by-half transcription IS the atomic one
@@ -345,6 +382,8 @@ end PwVerif.C12
 #print axioms PwVerif.C12.C12_seat_exact
 #print axioms PwVerif.C12.C12_replace_keeps_invariant
 #print axioms PwVerif.C12.C12_replace_refused_noop
+#print axioms PwVerif.C12.C12_restore_insert
+#print axioms PwVerif.C12.C12_load_in_place
 #print axioms PwVerif.C12.C12_flow_derivation
 #print axioms PwVerif.C12.C12_firing_order
 #print axioms PwVerif.C12.C12_ditch_without_disconnect_witness
